@@ -108,9 +108,9 @@ theorem slot_ops_in_slot (s : Slot) (d : Dev) :
       (newOps_of (markIntComplete_emits s hs) d rfl).mono conv,
       (newOps_of (markBootOk_emits s hs) d rfl).mono conv,
       (newOps_of (markBootBad_emits s hs) d rfl).mono conv⟩
-  · intro off buf hs; exact (newOps_of (writeRaw_emits s off buf hs) d rfl).mono conv
-  · intro idx h; exact (newOps_of (markSegmentWritten_emits s idx h) d rfl).mono conv
-  · intro idx buf h; exact (newOps_of (writeSegment_emits s idx buf h) d rfl).mono conv
+  · intro off buf hs; exact (newOps_of (writeRaw_emits s off buf hs) d rfl).mono (fun _ h => conv _ h.slotOp)
+  · intro idx h; exact (newOps_of (markSegmentWritten_emits s idx h) d rfl).mono (fun _ h => conv _ h.slotOp)
+  · intro idx buf h; exact (newOps_of (writeSegment_emits s idx buf h) d rfl).mono (fun _ h => conv _ h.slotOp)
 
 /-- the hypothesis of `writeSegment` is not redundant: these numbers pass `write_segment`'s own check
     (`offset ≤ size`) although the last bytes of the segment lie beyond the slot -/
@@ -183,7 +183,7 @@ theorem segment_footprint (ffr : Bool) (idx : Nat) (bytes : List Nat) (u : Upd) 
   intro r
   have h := handleSegment_emits (B := d.flash.block) (u.l ≤ u.maxL) u hg ffr idx bytes u d rfl
     ⟨SameSess.refl u, fun h => h⟩
-  exact ⟨h.2.1, h.2.2.1.1, h.2.2.1.2⟩
+  exact ⟨NewOps.mono h.2.1 (fun _ h => h.pairOp), h.2.2.1.1, h.2.2.1.2⟩
 
 /-- **`handle_segment` stays inside the session's two slots** — for every fragment index (0, data, coded, far out
 of range), every payload, every in-memory updater state reachable or not, and every device state, provided the
